@@ -36,7 +36,7 @@ def run_impl(prog, machine_cls=None):
                 "tb": traceback.format_exc(), "machine": m}
 
 
-def first_diff(impl_obs, model_hashes, ops=None, extra=None):
+def first_diff(impl_obs, model_hashes, ops=None, extra=None, mode="base"):
     """compare the implementation's observations with the model's per-observation hashes; on a
     mismatch fetch the model's observation and describe the first differing token"""
     hs = [emit.htok(o) for o in impl_obs]
@@ -48,7 +48,7 @@ def first_diff(impl_obs, model_hashes, ops=None, extra=None):
     d = {"op": j}
     if ops is not None:
         try:
-            y = emit.model_observation(ops, j, "F64", extra)
+            y = emit.model_observation(ops, j, "F64", extra, mode)
             x = impl_obs[j]
             k = next((i for i, (p, q) in enumerate(zip(x, y)) if p != q), min(len(x), len(y)))
             d.update(token=k, impl=x[max(0, k - 8):k + 8], model=y[max(0, k - 8):k + 8],
@@ -132,7 +132,7 @@ def main():
     if proof["build_ok"]:
         try:
             model = emit.run_models([p["ops"] for p in progs], instances=("F64", "Xq"),
-                                    extra=getattr(mod, "EMIT", None))
+                                    extra=getattr(mod, "EMIT", None), mode=getattr(mod, "MODE", "base"))
         except Exception as e:  # noqa: BLE001
             model_err = str(e)[-3000:]
             violations.append((common.write_replay(pid, "model_run", {
@@ -163,7 +163,7 @@ def main():
             mo = model[i]
             exact = mo["F64"] == mo["Xq"]
             stats["exact_safe"] += exact
-            d = first_diff(r["obs"], mo["F64"], p["ops"], getattr(mod, "EMIT", None))
+            d = first_diff(r["obs"], mo["F64"], p["ops"], getattr(mod, "EMIT", None), getattr(mod, "MODE", "base"))
             agree = d is None
             if d is not None:
                 stats["tie_mismatch"] += 1
@@ -276,8 +276,9 @@ def replay(P, mod, path):
     if r["crash"]:
         print("implementation crashed:", r["crash"])
         sys.exit(1)
-    mo = emit.run_models([p["ops"]], instances=("F64", "Xq"), extra=getattr(mod, "EMIT", None))[0]
-    d = first_diff(r["obs"], mo["F64"], p["ops"], getattr(mod, "EMIT", None))
+    mo = emit.run_models([p["ops"]], instances=("F64", "Xq"), extra=getattr(mod, "EMIT", None),
+                         mode=getattr(mod, "MODE", "base"))[0]
+    d = first_diff(r["obs"], mo["F64"], p["ops"], getattr(mod, "EMIT", None), getattr(mod, "MODE", "base"))
     fails = mod.oracle(p, r, mo["F64"] == mo["Xq"])
     print("correspondence:", "agree" if d is None else jdump(d))
     print("oracle:", "holds" if not fails else jdump(fails)[:3000])
